@@ -81,7 +81,7 @@ def gen(seed: int, tier: str) -> dict[str, Any]:
             junk.append({"t": round(tg["t"] + ref * rng.choice([0.3, 0.6, 0.9]), 6),
                          "p": rng.choice(["bin2", "bin63", "arr1", "arr2"]), "apci": rng.choice(["write", "write", "response"])})
     return {"seed": seed, "tier": "S", "junk": junk,
-            "config": {"kind": kind, "reset": reset, "ctx": ctx, "epoch_base": rng.choice([0.0, 1.7e9]), "batch": 1,
+            "config": {"kind": kind, "reset": reset, "ctx": ctx, "shadow": rng.random() < 0.2, "epoch_base": rng.choice([0.0, 1.7e9]), "batch": 1,
                        "invert": False},
             "ops": tgs, "readd": readd}
 
@@ -123,6 +123,18 @@ def run(plan: dict[str, Any]) -> dict[str, Any]:
                                context_timeout=cfg["ctx"] if kind in ("bs_counter", "bs_both") else None,
                                sync_state=False, device_updated_cb=updated)
         xknx.devices.async_add(dev)
+        dev2 = None
+        if cfg.get("shadow"):
+            # a second device of the same kind and the same name (names need not be unique) on another address, switched on
+            # while the judged one's timers run
+            if kind == "switch_reset":
+                dev2 = Switch(xknx, "sw", group_address=GroupAddress(GA_S + 1), reset_after=cfg["reset"])
+            else:
+                dev2 = BinarySensor(xknx, "bs", group_address_state=GroupAddress(GA_S + 1),
+                                    reset_after=cfg["reset"] if kind in ("bs_reset", "bs_both") else None,
+                                    context_timeout=cfg["ctx"] if kind in ("bs_counter", "bs_both") else None, sync_state=False)
+            xknx.devices.async_add(dev2)
+            R.extra_faults["second_device_of_the_same_name"] += 1
         await xknx.start()
         t0 = loop.time()
 
@@ -164,6 +176,11 @@ def run(plan: dict[str, Any]) -> dict[str, Any]:
 
         for j in plan.get("junk") or []:
             loop.at(t0 + j["t"], (lambda j=j: send_junk(j)), label="junk")
+
+        if dev2 is not None:
+            for tg in plan["ops"]:
+                loop.at(t0 + tg["t"] + ref_ * 0.3, (lambda: stub.deliver(W.cemi_ldata(
+                    W.L_DATA_IND, 0x1101, GA_S + 1, tpci_apci=W.gv_write_small(1)), "tg2")), label="tg2")
 
         def readd():
             xknx.devices.async_remove(dev)
